@@ -1,5 +1,6 @@
 import ScVerif.Base.Line
 import ScVerif.C20.Vending
+import ScVerif.C20.VendingCode
 import ScVerif.C20.Esc
 /-! Driver ops of the Vending model: `vend.conv`, `vend.seq`, `vend.opts`. -/
 namespace ScVerif.C20.Vending
@@ -71,7 +72,7 @@ def showOutcome : Outcome → String
 
 def runSeq (inv : Inventory) (ops : List (String × Option Qty)) : String :=
   let (_, outs) := ops.foldl (fun (acc : Inventory × List String) o =>
-    let (inv', out) := dispenseReq acc.1 o.1 o.2
+    let (inv', out) := dispenseReqCode acc.1 o.1 o.2
     (inv', (showOutcome out ++ " # " ++ showInv inv') :: acc.2)) (inv, [])
   " ; ".intercalate outs.reverse
 
